@@ -109,6 +109,30 @@ func (l *Linter) lintUnusedAcls(ctx *context.Context) {
 }
 
 func (l *Linter) lintUnusedBackends(ctx *context.Context) {
+	// A director may be declared before its backends, then the context could not mark them as used
+	// when the director was added. Mark the members of every director before reporting.
+	for _, d := range ctx.Directors {
+		if d.Decl == nil {
+			continue
+		}
+		for _, p := range d.Decl.Properties {
+			bo, ok := p.(*ast.DirectorBackendObject)
+			if !ok {
+				continue
+			}
+			for _, v := range bo.Values {
+				if v.Key.Value != "backend" {
+					continue
+				}
+				if ident, ok := v.Value.(*ast.Ident); ok {
+					if b, ok := ctx.Backends[ident.Value]; ok {
+						b.IsUsed = true
+					}
+				}
+			}
+		}
+	}
+
 	for key, b := range ctx.Backends {
 		if b.IsUsed {
 			continue
